@@ -126,6 +126,17 @@ Theorem C04_failed_then_crash : forall c w e, c_dirty w = false -> e <> ERestart
 Proof. exact failed_then_crash. Qed.
 Print Assumptions C04_failed_then_crash.
 
+(* THE normal form: ANY history of steps whose write succeeds at once or is still failing, steps attempted while the lock is
+   held by a retrying unlock, successful retries and crashes, from a state whose store is up to date, leaves the runner in a
+   state equivalent (same tasks with statuses and edges, same set of running handlers; the observer's log of handler starts is
+   not compared: a handler whose step was lost did start) to [run_events] of [cflat None evs]: the steps whose unlock completed,
+   in order, an ERestart for every crash, the unacknowledged steps dropped. Hence every theorem about [run_events] above speaks
+   about every store history. *)
+Theorem C04_store_normal_form : forall c evs w, c_dirty w = false -> c_disk w = tasks (c_mem w) ->
+  eqv (c_mem (crun c w evs)) (run_events c (c_mem w) (cflat None evs)).
+Proof. exact store_normal_form. Qed.
+Print Assumptions C04_store_normal_form.
+
 (* the hypothesis is tied to the code twice: (T) over the step list of State.Unlock regenerated from overlord/state/state.go
    on every run: in Unlock the data is marshalled and the checkpoint written before the state lock is released (a deferred
    unlock, no other unlock before the last Checkpoint call, no goroutine); the closure returned by Unlocker - the second
@@ -160,3 +171,10 @@ Example C04_retry_example :
   store_inv c w0 /\ c_dirty w1 = true /\ statuses (c_mem w1) = [(1, 3)] /\
   statuses (c_mem (crun c w1 [CCrash])) = [(1, 2)] /\ statuses (c_mem (crun c w1 [CRetry; CStep (EFinish 1) true; CCrash])) = [(1, 4)].
 Proof. vm_compute. repeat split; try reflexivity. left. split; reflexivity. Qed.
+
+(* non-vacuity of the normal form: a failing write, an attempt while the lock is held, a crash (step lost), then a failing
+   write that is retried successfully, a crash *)
+Example C04_normal_form_example :
+  cflat None [CStep EEnsure false; CStep (EFinish 1) true; CCrash; CStep EEnsure false; CRetry; CStep (EFinish 1) true; CCrash]
+  = [ERestart; EEnsure; EFinish 1; ERestart].
+Proof. reflexivity. Qed.
